@@ -178,6 +178,27 @@ def server_check(pid, tier):
 
 def replay(pid, path):
     payload = json.load(open(path))
+    if payload.get("reqlife_schedule"):
+        from common import BIN, sh, tlc
+        build_harness()
+        work = Work("replay")
+        try:
+            sf = work.path("sched.jsonl")
+            with open(sf, "w") as f:
+                f.write(json.dumps(payload["reqlife_schedule"]) + "\n")
+            tr = work.path("trace.ndjson")
+            sh([os.path.join(BIN, "e2e"), "reqlife", "--cases", sf, "--out", tr, "--par", "1"], timeout=600)
+            print(open(tr).read())
+            r = tlc("Trace_RequestorLife", "Trace_RequestorLife.cfg", work, workers=1, trace=tr, timeout=600)
+            for v in r.viol:
+                print("flagged:", v)
+            if [v for v in r.viol if pid in v["props"]]:
+                print("VIOLATION property=%s replay=%s" % (pid, path))
+                return 1
+            print("replay: no violation of %s" % pid)
+            return 0
+        finally:
+            work.cleanup()
     if payload.get("router") == "server":
         print("server-level case: re-run ./check %s (deterministic for VERIF_SEED); recorded context:" % pid)
         print(json.dumps(payload.get("trace"), indent=1)[:6000])
@@ -248,6 +269,24 @@ def _pure(pid, tier):
         ev = json.load(open(ev_path))
         ev["coverage"]["server_side"] = {"raw_peer_cases": sp["cases_used"], "events_validated": sp["events"],
                                          "runs_flagged": len(viols), "isolation_pairs": 6}
+        ev["violations"] = ev.get("violations", 0) + n_new
+        json.dump(ev, open(ev_path, "w"), indent=1, sort_keys=True)
+        rc = max(rc, rc2)
+    if pid in ("C04", "C12"):
+        # requestor handles across clones, connection losses and successors (RequestorLife.tla)
+        import e2e_checks
+        rl = e2e_checks.reqlife_pipeline(tier)
+        if not rl["model_ok"]:
+            raise ToolError("TLC reports RequestorLife violates its invariants:\n" + rl["model_tail"])
+        viols = [dict(v, kind="reqlife:" + v["kind"]) for v in rl["viol"] if pid in v["props"]]
+        rc2, n_new, hit = verdict(pid, viols, lambda v: write_replay(pid, v["kind"], {
+            "property": pid, "signature": v["kind"], "reqlife_schedule": v.get("schedule"), "event": v.get("event"), "context": v.get("context"),
+            "how": "./check %s --replay <this file>" % pid}))
+        ev_path = os.path.join(os.path.dirname(os.path.dirname(os.path.abspath(__file__))), "evidence", pid + ".json")
+        ev = json.load(open(ev_path))
+        ev["coverage"]["requestor_life"] = {k: rl[k] for k in ("models", "schedules", "runs", "events", "calls_compared", "n_viol", "n_inconclusive", "sample", "wall_s")}
+        ev["coverage"]["states"] = ev["coverage"].get("states", 0) + sum(m["states"] for m in rl["models"])
+        ev["coverage"]["traces_validated_against_impl"] = ev["coverage"].get("traces_validated_against_impl", 0) + rl["runs"]
         ev["violations"] = ev.get("violations", 0) + n_new
         json.dump(ev, open(ev_path, "w"), indent=1, sort_keys=True)
         rc = max(rc, rc2)
